@@ -225,6 +225,57 @@ theorem appendMappingInverted_mapResult (m n : Mapping) (hne : n.maps ≠ [])
   · exact hf
   · exact invert_from n
 
+/-- the receiver's `from_` lies at or beyond its last map: the walk starts inside the appended part -/
+theorem appendMapping_mapResult_late (m n : Mapping) (hne : n.maps ≠ [])
+    (hev : m.mirror.length % 2 = 0) (hin : ∀ x ∈ m.mirror, x < m.maps.length)
+    (hsym : MirrorSym n) (hrng : MirrorInRange n)
+    (hf : m.maps.length ≤ m.from_) (p a : Int) :
+    (m.appendMapping n).mapResult p a = (n.slice (m.from_ - m.maps.length)).mapResult p a := by
+  have hlen : n.maps.length ≠ 0 := fun h => hne (List.eq_nil_of_length_eq_zero h)
+  obtain ⟨_, hfrom, hto⟩ := appendMapping_mirror m n
+  rw [if_neg hlen] at hto
+  rw [mapResult_eq_run, mapResult_eq_run, hfrom]
+  have e : m.from_ = m.maps.length + (m.from_ - m.maps.length) := by omega
+  have := run_congr n.whole (m.appendMapping n) a m.maps.length 0 (by rw [hto]; rfl)
+    (fun j _ hj => by
+      rw [appendMapping_maps, List.getElem?_append_right (by omega)]
+      simp only [Nat.add_sub_cancel_left]; rfl)
+    (fun j _ hj => jumpT_shift (m.appendMapping n) n.whole m.maps.length j (by rw [hto]; rfl)
+      (appendMapping_getMirror_new m n hev hin hsym hrng j hj))
+    (n.whole.to - (m.from_ - m.maps.length)) (m.from_ - m.maps.length) p 0 rfl (Nat.zero_le _)
+  rw [← e] at this
+  rw [this]
+  exact run_eq_of (n.slice (m.from_ - m.maps.length)) n.whole rfl rfl rfl _ _ _ _
+
+theorem appendMappingInverted_mapResult_late (m n : Mapping) (hne : n.maps ≠ [])
+    (hev : m.mirror.length % 2 = 0) (hin : ∀ x ∈ m.mirror, x < m.maps.length)
+    (hsym : MirrorSym n) (hrng : MirrorInRange n)
+    (hf : m.maps.length ≤ m.from_) (p a : Int) :
+    (m.appendMappingInverted n).mapResult p a =
+      (n.invert.slice (m.from_ - m.maps.length) (some n.invert.to)).mapResult p a := by
+  have hlen : n.maps.length ≠ 0 := fun h => hne (List.eq_nil_of_length_eq_zero h)
+  obtain ⟨_, hfrom, hto⟩ := appendMappingInverted_mirror m n
+  rw [if_neg hlen] at hto
+  rw [mapResult_eq_run, mapResult_eq_run, hfrom]
+  have e : m.from_ = m.maps.length + (m.from_ - m.maps.length) := by omega
+  have := run_congr n.invert (m.appendMappingInverted n) a m.maps.length 0 (by rw [hto, invert_to])
+    (fun j _ hj => by
+      rw [appendMappingInverted_maps, List.getElem?_append_right (by omega), invert_maps]
+      simp only [Nat.add_sub_cancel_left])
+    (fun j _ hj => jumpT_shift (m.appendMappingInverted n) n.invert m.maps.length j (by rw [hto, invert_to])
+      (by
+        rw [invert_to] at hj
+        have e' : j = n.maps.length - 1 - (n.maps.length - 1 - j) := by omega
+        have h1 := appendMappingInverted_getMirror_new m n hev hin hsym hrng (n.maps.length - 1 - j) (by omega)
+        have h2 := invert_getMirror n hsym hrng (n.maps.length - 1 - j) (by omega)
+        rw [← e'] at h1 h2
+        rw [h1, h2]
+        cases n.getMirror (n.maps.length - 1 - j) <;> simp))
+    (n.invert.to - (m.from_ - m.maps.length)) (m.from_ - m.maps.length) p 0 rfl (Nat.zero_le _)
+  rw [← e] at this
+  rw [this]
+  exact run_eq_of (n.invert.slice (m.from_ - m.maps.length) (some n.invert.to)) n.invert rfl rfl rfl _ _ _ _
+
 /-! ### mirror-less mappings: folds -/
 
 theorem delFold_or : ∀ (ms : List StepMap) (a p : Int) (d : Nat),
